@@ -78,7 +78,7 @@ class MsvcRcCompiler(SimpleBuildCommand):
             if isinstance(i, opts.include_dir):
                 flags.append('/I' + i.directory.path)
             elif isinstance(i, opts.define):
-                if i.value:
+                if i.value is not None:
                     flags.append('/d' + i.name + '=' + i.value)
                 else:
                     flags.append('/d' + i.name)
